@@ -13,9 +13,11 @@ user's names and are not counted) and `helpersProvided` (what the same output de
 and `used ⊆ provided`, for every `ParsedData`, every configuration and every printer state left
 behind by the files generated earlier in the run (that covers multi-file mode).
 
-* Swift, Go, TypeScript: the statement holds (`C12_swift`, `C12_go`, `C12_typescript`).
-* Scala, Python, Kotlin: it does not (`C12_not_full`); the failing inputs are characterised exactly
-  (`Known_scala`, `Known_python`, `Known_kotlin`) and the statement is proved for all others.
+* Swift, Go, TypeScript, Scala: the statement holds (`C12_swift`, `C12_go`, `C12_typescript`,
+  `C12_scala`; Scala since the `fix:` commit c7871b1 made the unsigned-integer scan recursive).
+* Python, Kotlin: it does not (`C12_not_full`); the failing inputs are characterised exactly
+  (`Known_python`, `Known_kotlin`) and the statement is proved for all others.  (Python's generic
+  aliases are no longer among them since the `fix:` commit 614135b.)
 -/
 namespace TsV.C12
 open TsV TsV.C12L
@@ -148,66 +150,63 @@ def Scala_full : Prop :=
   ∀ (cfg : Lang.Scala.Cfg) (d : ParsedData) (f : Lang.Scala.ScFile), Lang.Scala.fileFacts cfg d = .ok f →
     Scala.used cfg d = true → Scala.definesUnsigned f = true
 
-/-- **Known (Scala)**: `C12L.Scala.Known` — some formatted type prints an unsigned alias that the
-one-level scan of `unsigned_integer_used` does not reach, and no scanned type has one within reach -/
-abbrev Known_scala := Scala.Known
-
-/-- `struct S { a: Vec<Vec<u8>> }` -/
-def scalaWitness : ParsedData := { structs := [mkStruct s%"S" [mkField s%"a" (.vec (.vec (.prim .u8)))]] }
 def scalaCfg : Lang.Scala.Cfg := { package := s%"com.example" }
 
-theorem scala_not_full : ¬ Scala_full := by
-  intro h
-  have hok : (Lang.Scala.fileFacts scalaCfg scalaWitness).isOk = true := by decide +kernel
-  cases hf : Lang.Scala.fileFacts scalaCfg scalaWitness with
-  | ok f =>
-    have h1 := h scalaCfg scalaWitness f hf (by decide +kernel)
-    rw [Scala.fileFacts_defines scalaCfg scalaWitness f hf] at h1
-    revert h1; decide +kernel
-  | err e => rw [hf] at hok; cases hok
-  | panic e => rw [hf] at hok; cases hok
-
-/-- the statement holds exactly outside `Known_scala` -/
-theorem C12_scala_exact (cfg : Lang.Scala.Cfg) (d : ParsedData) (f : Lang.Scala.ScFile)
-    (hf : Lang.Scala.fileFacts cfg d = .ok f) :
-    (Scala.used cfg d = true → Scala.definesUnsigned f = true) ↔ ¬ Known_scala cfg d := by
+/-- **C12 for Scala** (a full theorem since the `fix:` commit c7871b1: `uses_unsigned` descends to
+any depth, under arrays, slices and generic arguments too) -/
+theorem C12_scala : Scala_full := by
+  intro cfg d f hf hu
   rw [Scala.fileFacts_defines cfg d f hf]
-  exact Scala.used_provided_iff cfg d
+  exact Scala.used_provided cfg d hu
 
-theorem C12_scala_partial (cfg : Lang.Scala.Cfg) (d : ParsedData) (f : Lang.Scala.ScFile)
-    (hf : Lang.Scala.fileFacts cfg d = .ok f) (hk : ¬ Known_scala cfg d) (hu : Scala.used cfg d = true) :
+/-- … and the rendered file then contains the four alias definitions -/
+theorem C12_scala_text (cfg : Lang.Scala.Cfg) (d : ParsedData) (f : Lang.Scala.ScFile)
+    (hf : Lang.Scala.fileFacts cfg d = .ok f) (hu : Scala.used cfg d = true) :
     Scala.definesUnsigned f = true ∧ Lang.Scala.unsignedAliases <:+: Lang.Scala.renderFile f := by
-  have := (C12_scala_exact cfg d f hf).2 hk hu
+  have := C12_scala cfg d f hf hu
   exact ⟨this, Scala.renderFile_defines f this⟩
 
-/-- the useful special case: every unsigned integer is within reach of the scan -/
-theorem C12_scala_within_reach (cfg : Lang.Scala.Cfg) (d : ParsedData) (f : Lang.Scala.ScFile)
-    (hf : Lang.Scala.fileFacts cfg d = .ok f)
-    (hr : ∀ t ∈ Scala.formatted d, Scala.unsignedIn cfg t = true → Scala.within t = true)
-    (hu : Scala.used cfg d = true) : Scala.definesUnsigned f = true := by
-  refine (C12_scala_partial cfg d f hf ?_ hu).1
-  rintro ⟨⟨t, ht, hu', hw⟩, _⟩
-  rw [hr t ht hu'] at hw; cases hw
+/-- the scan finds every unsigned integer the formatter prints, type by type -/
+theorem scala_scan_complete (cfg : Lang.Scala.Cfg) (t : RustType) (hu : Scala.unsignedIn cfg t = true) :
+    Lang.Scala.usesUnsigned t = true := Scala.usesUnsigned_of_unsignedIn cfg t hu
 
-/-- inside `Known_scala` the missed integer lies under an array / slice or at least two levels down -/
-theorem known_scala_is_deep (cfg : Lang.Scala.Cfg) (t : RustType) (hu : Scala.unsignedIn cfg t = true)
-    (hw : Scala.within t = false) : Scala.beyondReach cfg t = true := Scala.beyondReach_of_missed cfg t hu hw
+/-- without type mappings the scan is exact (with them it may also see an unsigned integer in the
+argument of a type-mapped generic, which is never printed: a spare alias block, not a missing one) -/
+theorem scala_scan_exact (cfg : Lang.Scala.Cfg) (hm : cfg.typeMappings = []) (t : RustType) :
+    Lang.Scala.usesUnsigned t = Scala.unsignedIn cfg t := Scala.usesUnsigned_eq_unsignedIn cfg hm t
 
 /-- the model's `unsignedIn` is about the text: the formatted string mentions an alias name -/
 theorem scala_used_mentions (cfg : Lang.Scala.Cfg) (gens : List Str) (t : RustType) (s : Str)
     (h : Lang.Scala.formatType cfg gens t = .ok s) (hu : Scala.unsignedIn cfg t = true) :
     ∃ n ∈ Scala.aliasNames, n <:+: s := Scala.formatType_mentions cfg gens t s h hu
 
-example : Known_scala scalaCfg scalaWitness := by decide +kernel
-example : ¬ Known_scala scalaCfg { structs := [mkStruct s%"S" [mkField s%"a" (.vec (.prim .u8))]] } := by
+/-- what `fileFacts` says about the alias block of a file -/
+def scalaDefines (cfg : Lang.Scala.Cfg) (d : ParsedData) : Option Bool :=
+  match Lang.Scala.fileFacts cfg d with
+  | .ok f => some (Scala.definesUnsigned f)
+  | _ => none
+
+/-! regression examples: the witnesses of the repaired class `scala-unsigned-scan-depth`
+(`struct S { a: Vec<Vec<u8>> }`, arrays, slices, `Option<Vec<_>>`, map values, generic arguments)
+now use the aliases *and* get them -/
+/-- `struct S { a: Vec<Vec<u8>> }` -/
+def scalaWitness : ParsedData := { structs := [mkStruct s%"S" [mkField s%"a" (.vec (.vec (.prim .u8)))]] }
+example : Scala.used scalaCfg scalaWitness = true ∧ scalaDefines scalaCfg scalaWitness = some true := by
   decide +kernel
--- a shallow use elsewhere in the file rescues a deep one
-example : ¬ Known_scala scalaCfg { structs := [mkStruct s%"S"
-    [mkField s%"a" (.vec (.vec (.prim .u8))), mkField s%"b" (.prim .u16)]] } := by decide +kernel
-example : Scala.within (.array (.prim .u16) 2) = false ∧ Scala.within (.slice (.prim .u16)) = false ∧
-    Scala.within (.option (.vec (.prim .u32))) = false ∧
-    Scala.within (.hashMap (.prim .string) (.vec (.prim .u8))) = false ∧
-    Scala.within (.generic s%"Foo" [.vec (.prim .u8)]) = false := by decide
+example : scalaDefines scalaCfg { structs := [mkStruct s%"S" [mkField s%"a" (.array (.prim .u16) 2)]] } = some true := by
+  decide +kernel
+example : scalaDefines scalaCfg { aliases := [mkAlias s%"A" (.option (.vec (.prim .u32)))] } = some true := by
+  decide +kernel
+example : Lang.Scala.usesUnsigned (.array (.prim .u16) 2) = true ∧ Lang.Scala.usesUnsigned (.slice (.prim .u16)) = true ∧
+    Lang.Scala.usesUnsigned (.option (.vec (.prim .u32))) = true ∧
+    Lang.Scala.usesUnsigned (.hashMap (.prim .string) (.vec (.prim .u8))) = true ∧
+    Lang.Scala.usesUnsigned (.generic s%"Foo" [.vec (.prim .u8)]) = true := by decide
+-- no unsigned integer anywhere: no alias block
+example : scalaDefines scalaCfg { structs := [mkStruct s%"S" [mkField s%"a" (.vec (.vec (.prim .i32)))]] } = some false := by
+  decide +kernel
+-- the argument of a type-mapped generic is scanned though never printed
+example : Scala.unsignedIn { typeMappings := [(s%"Foo", s%"Bar")] } (.generic s%"Foo" [.prim .u8]) = false ∧
+    Lang.Scala.usesUnsigned (.generic s%"Foo" [.prim .u8]) = true := by decide
 
 /-! ## Kotlin: the serialization imports -/
 
@@ -315,14 +314,13 @@ def Known_python (cfg : Lang.Python.Cfg) (d : ParsedData) (st : Lang.Python.St) 
 instance (cfg : Lang.Python.Cfg) (d : ParsedData) (st : Lang.Python.St) : Decidable (Known_python cfg d st) := by
   unfold Known_python; infer_instance
 
-/-- the three kinds of names in `risky`:
-* `py-alias-typevar` — a generic parameter of a type alias (`G[T] = List[T]`, no `TypeVar`);
+/-- the two kinds of names in `risky` (the former third kind, `py-alias-typevar` — a generic
+parameter of a type alias — is repaired by the `fix:` commit 614135b and now part of `safe`):
 * `py-default-custom` — the translation functions of a `#[serde(default)]` non-`Option` field whose
   python type is `bytes` / `datetime` (registered as `Optional[..]`, for which none exist);
 * `py-datetime-import` — the name `datetime` inside the `datetime` translation functions. -/
 theorem known_python_kinds (cfg : Lang.Python.Cfg) (d : ParsedData) (st : Lang.Python.St) (n : Python.Need)
     (hn : n ∈ Python.risky cfg d st) :
-    (∃ a ∈ d.aliases, ∃ g ∈ a.genericTypes, n = .typeVar g) ∨
     (∃ gens f t, Python.nod f = true ∧ Python.customTy cfg gens f = some t ∧ n = .fns t) ∨
     (n = Python.impDatetime ∧ s%"datetime" ∈ st.customJson) := by
   have hfield : ∀ gens (f : RustField), n ∈ Python.fieldRisky cfg gens f →
@@ -348,32 +346,17 @@ theorem known_python_kinds (cfg : Lang.Python.Cfg) (d : ParsedData) (st : Lang.P
   simp only [Python.risky, List.mem_append, List.mem_flatMap] at hn
   rcases hn with ⟨it, hit, h⟩ | h
   · cases it with
-    | struct rs => exact Or.inr (Or.inl (hstruct rs h))
+    | struct rs => exact Or.inl (hstruct rs h)
     | «enum» e =>
       simp only [Python.itemRisky, Python.enumRisky, Python.innerRisky, List.mem_flatMap] at h
       obtain ⟨p, _, hp⟩ := h
-      exact Or.inr (Or.inl (hstruct _ hp))
-    | alias a =>
-      left
-      have ha : a ∈ d.aliases := by
-        simp only [itemsOf, List.mem_append, List.mem_map] at hit
-        rcases hit with ((⟨a', ha', h'⟩ | ⟨_, _, h'⟩) | ⟨_, _, h'⟩) | ⟨_, _, h'⟩
-        · cases h'; exact ha'
-        · cases h'
-        · cases h'
-        · cases h'
-      simp only [Python.itemRisky, List.mem_append, List.mem_map, List.mem_filter] at h
-      rcases h with ⟨g, hg, rfl⟩ | ⟨_, hg⟩
-      · exact ⟨a, ha, g, hg, rfl⟩
-      · cases n with
-        | typeVar g => exact ⟨a, ha, g, by simpa [Python.isGenVar] using hg, rfl⟩
-        | imp m i => simp [Python.isGenVar] at hg
-        | fns t => simp [Python.isGenVar] at hg
+      exact Or.inl (hstruct _ hp)
+    | alias a => simp [Python.itemRisky] at h
     | const c => simp [Python.itemRisky] at h
   · split at h
     · rename_i hd
       simp only [List.mem_singleton] at h
-      exact Or.inr (Or.inr ⟨h, hd⟩)
+      exact Or.inr ⟨h, hd⟩
     · simp at h
 
 /-- the statement holds exactly outside `Known_python` -/
@@ -404,8 +387,8 @@ theorem C12_python_safe (E : Ext) (cfg : Lang.Python.Cfg) (d : ParsedData) (st0 
     (∀ n ∈ Python.safe E cfg d, Python.Provides st n) ∧ Python.Mono st0 st :=
   ⟨(Python.generate_spec E cfg d st0 text st h).2.1, (Python.generate_spec E cfg d st0 text st h).1⟩
 
-/-- the input-level special case: no generic alias, no defaulted non-`Option` custom field, and
-`datetime` not registered for custom translation -/
+/-- the input-level special case: no defaulted non-`Option` custom field, and `datetime` not
+registered for custom translation -/
 theorem C12_python_no_risk (E : Ext) (cfg : Lang.Python.Cfg) (d : ParsedData) (st0 : Lang.Python.St) (text : Str)
     (st : Lang.Python.St) (h : Lang.Python.generate E cfg d st0 = .ok (text, st))
     (h1 : (itemsOf d).flatMap (Python.itemRisky cfg) = []) (h2 : s%"datetime" ∉ st.customJson) :
@@ -428,40 +411,55 @@ theorem python_header_written (st : Lang.Python.St) :
       (n ++ s%" = TypeVar(\"" ++ n ++ s%"\")") <:+: Lang.Python.writeAllImports st) :=
   ⟨Python.writeAllImports_import st, Python.writeAllImports_typeVar st⟩
 
-/-- `type G<T> = Vec<T>` -/
-def pyAliasItem : RustItem := .alias (mkAlias s%"G" (.vec (.simple s%"T")) [s%"T"])
-def pyAliasWitness : ParsedData := { aliases := [mkAlias s%"G" (.vec (.simple s%"T")) [s%"T"]] }
-
 /-- the final printer state of a list of items -/
 def pyFinal (E : Ext) (cfg : Lang.Python.Cfg) (items : List RustItem) : Option Lang.Python.St :=
   match Lang.Python.writeItems E cfg items {} with
   | .ok (_, st) => some st
   | _ => none
 
+/-- `struct S { #[serde(default)] t: OffsetDateTime }`: `parse_rfc3339` / `serialize_datetime_data`
+are named in the `Annotated[..]` of the field, but registered (and so written) for
+`Optional[datetime]`, for which there are none -/
+def pyDefaultItem : RustItem := .struct (mkStruct s%"S" [mkField s%"t" (.prim .dateTime) true])
+def pyDefaultWitness : ParsedData := { structs := [mkStruct s%"S" [mkField s%"t" (.prim .dateTime) true]] }
+
 theorem python_not_full : ¬ Python_full := by
   intro h
-  have ho : Pipeline.generateOrder pyAliasWitness = some [pyAliasItem] :=
-    topsort_single pyAliasItem (by decide +kernel)
-  have hw : (pyFinal exE {} [pyAliasItem]).map (·.typeVars) = some [] := by decide +kernel
+  have ho : Pipeline.generateOrder pyDefaultWitness = some [pyDefaultItem] :=
+    topsort_single pyDefaultItem (by decide +kernel)
+  have hw : (pyFinal exE {} [pyDefaultItem]).map (·.customJson) = some [s%"Optional[datetime]"] := by decide +kernel
   unfold pyFinal at hw
-  cases hwi : Lang.Python.writeItems exE {} [pyAliasItem] {} with
+  cases hwi : Lang.Python.writeItems exE {} [pyDefaultItem] {} with
   | ok r =>
     obtain ⟨body, st⟩ := r
     rw [hwi] at hw
     simp only [Option.map_some, Option.some.injEq] at hw
-    have hg : Lang.Python.generate exE {} pyAliasWitness {} =
+    have hg : Lang.Python.generate exE {} pyDefaultWitness {} =
         .ok (Lang.Python.beginFile {} ++ Lang.Python.writeAllImports st ++ Lang.Python.writeCustomFns st ++ body, st) := by
       simp [Lang.Python.generate, ho, hwi]
-    have := (h exE {} pyAliasWitness {} _ st hg).2 (.typeVar s%"T") (by
+    have := (h exE {} pyDefaultWitness {} _ st hg).2 (.fns s%"datetime") (by
       apply List.mem_append_right
       apply List.mem_append_left
       decide +kernel)
     simp only [Python.Provides, hw] at this
-    cases this
+    revert this
+    decide +kernel
   | err e => rw [hwi] at hw; cases hw
   | panic e => rw [hwi] at hw; cases hw
 
-/-! the other two classes, on their minimal witnesses -/
+/-! regression example: the witness of the repaired class `py-alias-typevar`, `type G<T> = Vec<T>` —
+`T` is used by the alias, and now declared (with `TypeVar` imported) -/
+def pyAliasItem : RustItem := .alias (mkAlias s%"G" (.vec (.simple s%"T")) [s%"T"])
+example : Python.itemSafe exE {} pyAliasItem =
+    [.typeVar s%"T", Python.impTypeVar, Python.impList, .typeVar s%"T"] ∧ Python.itemRisky {} pyAliasItem = [] := by
+  decide +kernel
+example : (pyFinal exE {} [pyAliasItem]).map (fun st => (st.typeVars,
+    decide (Python.Provides st (.typeVar s%"T") ∧ Python.Provides st Python.impTypeVar))) = some ([s%"T"], true) := by
+  decide +kernel
+example : (match Lang.Python.writeItems exE {} [pyAliasItem] {} with | .ok (t, _) => some t | _ => none) =
+    some s%"G = List[T]\n\n" := by decide +kernel
+
+/-! the two remaining classes, on their minimal witnesses -/
 -- `struct S { #[serde(default)] t: OffsetDateTime }`: `parse_rfc3339` is named, not defined
 example : (pyFinal exE {} [.struct (mkStruct s%"S" [mkField s%"t" (.prim .dateTime) true])]).map
     (fun st => (decide (Python.Provides st (.fns s%"datetime")), st.customJson)) =
@@ -491,26 +489,23 @@ is defined or imported by the same output (Swift in multi-file mode: by the shar
 def C12_full : Prop :=
   Swift_full ∧ Scala_full ∧ Python_full ∧ Go_full ∧ TypeScript_full ∧ Kotlin_full
 
-theorem C12_not_full : ¬ C12_full := fun h => scala_not_full h.2.1
+theorem C12_not_full : ¬ C12_full := fun h => python_not_full h.2.2.1
 
-/-- all three failing back ends fail independently -/
-theorem C12_not_full_each : ¬ Scala_full ∧ ¬ Python_full ∧ ¬ Kotlin_full :=
-  ⟨scala_not_full, python_not_full, kotlin_not_full⟩
+/-- both failing back ends fail independently -/
+theorem C12_not_full_each : ¬ Python_full ∧ ¬ Kotlin_full :=
+  ⟨python_not_full, kotlin_not_full⟩
 
-/-- **C12 outside the known classes**: Swift, Go and TypeScript unconditionally; Scala, Python and
-Kotlin for every input that is not in `Known_scala` / `Known_python` / `Known_kotlin` -/
+/-- **C12 outside the known classes**: Swift, Go, TypeScript and Scala unconditionally; Python and
+Kotlin for every input that is not in `Known_python` / `Known_kotlin` -/
 theorem C12_partial :
-    Swift_full ∧ Go_full ∧ TypeScript_full ∧
-    (∀ (cfg : Lang.Scala.Cfg) (d : ParsedData) (f : Lang.Scala.ScFile), Lang.Scala.fileFacts cfg d = .ok f →
-      ¬ Known_scala cfg d → Scala.used cfg d = true → Scala.definesUnsigned f = true) ∧
+    Swift_full ∧ Go_full ∧ TypeScript_full ∧ Scala_full ∧
     (∀ (E : Ext) (cfg : Lang.Python.Cfg) (d : ParsedData) (st0 : Lang.Python.St) (text : Str) (st : Lang.Python.St),
       Lang.Python.generate E cfg d st0 = .ok (text, st) → ¬ Known_python cfg d st →
       ∀ n ∈ Python.used E cfg d st, Python.Provides st n) ∧
     (∀ (cfg : Lang.Kotlin.Cfg) (d : ParsedData) (items : List RustItem) (decls : List Lang.Kotlin.KtDecl),
       Pipeline.generateOrder d = some items → Lang.Kotlin.itemsFacts cfg items = .ok decls →
       ¬ Known_kotlin cfg decls → ∀ n ∈ decls.flatMap Kotlin.declUses, n ∈ Kotlin.provided cfg) :=
-  ⟨C12_swift, C12_go, C12_typescript,
-   fun cfg d f hf hk hu => (C12_scala_partial cfg d f hf hk hu).1,
+  ⟨C12_swift, C12_go, C12_typescript, C12_scala,
    fun E cfg d st0 text st h hk => (C12_python_partial E cfg d st0 text st h hk).2,
    fun cfg d items decls ho hf hk => C12_kotlin_partial cfg d items decls ho hf hk⟩
 
